@@ -54,6 +54,7 @@ def combos_quick(rng):
 
 class Prop(BaseProp):
     ID = "C08"
+    PIPELINES = True      # a fixed share of the cases goes through cminx.main (-o and stdout) instead of the Documenter
     ANCHORS = ['cminx.aggregator:DocumentationAggregator.enterCommand_invocation', 'cminx.aggregator:DocumentationAggregator.process_cpp_member', 'cminx.aggregator:DocumentationAggregator.process_cpp_attr']
     LEVEL = "exploration"
     RULE = ("modules mixing documented and undocumented commands of all ten flag-controlled kinds (documented classes "
